@@ -165,6 +165,8 @@ pub struct Child {
 }
 
 pub struct TokRec {
+    /// plain-data output (no destructor): excluded from drop accounting
+    pub plain: bool,
     pub id: u32,
     pub seq: u32,
     pub err: bool,
@@ -228,6 +230,8 @@ pub enum UpForce {
 }
 
 pub struct Block {
+    /// bytes of the block at the moment it was released (deferred free): any later write shows
+    pub snapshot: Vec<u8>,
     pub base: usize,
     pub size: usize,
     pub align: usize,
@@ -535,13 +539,52 @@ pub struct Tok {
 impl Tok {
     pub fn produce(id: u32, seq: u32, err: bool) -> Tok {
         let serial = w(|w| {
-            w.toks.push(TokRec { id, seq, err, drops: 0, handed: 0 });
+            w.toks.push(TokRec { plain: false, id, seq, err, drops: 0, handed: 0 });
             (w.toks.len() - 1) as u32
         });
         Tok { magic: MAGIC, serial, id, seq, err: err as u32 }
     }
     pub fn valid(&self) -> bool {
         self.magic == MAGIC
+    }
+}
+
+/// An output type without a destructor (the crate may treat such types differently, e.g. through
+/// `needs_drop`): same payload as `Tok`, validated the same way when it is handed out.
+#[repr(C)]
+#[derive(Clone, Copy)]
+pub struct PTok {
+    pub magic: u64,
+    pub serial: u32,
+    pub id: u32,
+    pub seq: u32,
+    pub err: u32,
+}
+impl PTok {
+    pub fn produce(id: u32, err: bool) -> PTok {
+        let serial = w(|w| {
+            w.toks.push(TokRec { plain: true, id, seq: 0, err, drops: 0, handed: 0 });
+            (w.toks.len() - 1) as u32
+        });
+        PTok { magic: MAGIC, serial, id, seq: 0, err: err as u32 }
+    }
+    /// hand the value to the harness' accounting (the resulting Tok is dropped by the harness)
+    pub fn into_tok(self) -> Tok {
+        Tok { magic: self.magic, serial: self.serial, id: self.id, seq: self.seq, err: self.err }
+    }
+}
+impl Out for PTok {
+    fn produce(id: u32, _fail: bool) -> Self {
+        PTok::produce(id, false)
+    }
+}
+impl Out for Result<PTok, PTok> {
+    fn produce(id: u32, fail: bool) -> Self {
+        if fail {
+            Err(PTok::produce(id, true))
+        } else {
+            Ok(PTok::produce(id, false))
+        }
     }
 }
 
